@@ -189,9 +189,10 @@ def _delete_elf_symbol_versions(
     # Remove ElfSymDefs which have no remaining entries
     ids_to_remove = [id for id in defs.keys() if id not in ids_to_keep]
     for id in ids_to_remove:
-        # Keep library file definitions
+        # Keep library file definitions. VER_FLG_BASE is a flag bit: the
+        # base definition may carry other flags (e.g. VER_FLG_WEAK) as well.
         versions, flags = defs[id]
-        if flags != _VER_FLG_BASE:
+        if not flags & _VER_FLG_BASE:
             del defs[id]
 
     # Remove ElfSymVerNeeded which have no remaining versions
